@@ -19,6 +19,7 @@ open('/tmp/vs-cmd-%s'%os.getppid(),'w').write(m['demo_cmd'])
 P
 cmd=$(cat /tmp/vs-cmd-$$)
 cmd=${cmd//\/tmp\/seed-C[0-9][0-9]/$wt}
+cmd=${cmd//\/tmp\/seed2-C[0-9][0-9]/$wt}
 ( eval "$cmd" ) > /tmp/vs-demo1-$$.log 2>&1 && res="$res demo_with_change=PASS(unexpected)" || res="$res demo_with_change=fails"
 git apply -R "$d/patch.diff"
 ( eval "$cmd" ) > /tmp/vs-demo2-$$.log 2>&1 && res="$res demo_without=passes" || res="$res demo_without=FAILS(unexpected)"
